@@ -12,6 +12,9 @@ POLICY_OP = {"get": 10, "getAttributes": 11, "getAttributeList": 12, "activate":
 RANK = {None: 0, 1: 0, 2: 1, 3: 2, 4: 3, 5: 4, 6: 5}
 
 
+import uidcanon  # noqa: E402
+
+
 def iter_requests(h, outs):
     """yield (index, line, out, dump_before, dump_after, policies) for every request line"""
     last_dump = None
@@ -26,7 +29,9 @@ def iter_requests(h, outs):
             after = None
             if i + 1 < len(h) and h[i + 1].get("cmd") == "dump":
                 after = outs[i + 1]
-            yield i, j, o, last_dump, after, pol
+            # identifier spellings are read as the server's identifier grammar (SQLite's numeric affinity, asked of
+            # SQLite itself) reads them: " 6" and "06" address object 6, "0_6" addresses nothing
+            yield i, uidcanon.canon_line(j), uidcanon.canon_out(j, o), last_dump, after, pol
 
 
 def by_uid(dump):
